@@ -794,8 +794,123 @@ fn long_case(ch: &mut Choices<'_>, st: &mut Stats) -> CaseResult {
     check_needle(&needle, anchor, form, 1, &hays, false, st)
 }
 
+/// Sibling patterns alive together (production path, no anchor override): a
+/// base pattern and patterns that differ from it in one bit (first, middle and
+/// last byte; low, middle and high bit), by one appended / dropped byte or by
+/// trailing NULs are compiled in a drawn order and all kept; every filter must
+/// answer for every sibling's occurrences as the naive scan does, before and
+/// after some of them are dropped and compiled again.  Also: one-byte patterns
+/// (incl. 0x00 and 0xff) on short haystacks that do not contain the byte.
+fn siblings_case(ch: &mut Choices<'_>, st: &mut Stats) -> CaseResult {
+    let len = match ch.weighted(&[4, 2, 1]) {
+        0 => *ch.pick(&[1usize, 2, 3, 4, 7, 8, 9, 15, 16, 17, 31, 32, 33]),
+        1 => 1 + ch.draw(40),
+        _ => *ch.pick(&[63usize, 64, 65, 128]),
+    };
+    let alpha = *ch.pick(&[2usize, 4, 26]);
+    let mut base: Vec<u8> = (0..len).map(|_| b'a' + ch.draw(alpha) as u8).collect();
+    if ch.chance(1, 4) {
+        let i = ch.draw(len);
+        base[i] = *ch.pick(&[0x00u8, 0xff, 0x80, b'/', b'.']);
+    }
+    let mut sibs: Vec<Vec<u8>> = vec![base.clone()];
+    let nsib = ch.range(2, 6);
+    for _ in 0..nsib {
+        let mut v = base.clone();
+        match ch.weighted(&[6, 1, 1, 1]) {
+            0 => {
+                let at = *ch.pick(&[0usize, len / 2, len - 1, len - 1]);
+                v[at] ^= 1 << ch.draw(8);
+            }
+            1 => v.push(*ch.pick(&[0x00u8, b'a', 0xff])),
+            2 => {
+                if v.len() > 1 {
+                    v.pop();
+                }
+            }
+            _ => {
+                v.push(0);
+                v.push(0);
+            }
+        }
+        if !sibs.contains(&v) {
+            sibs.push(v);
+        }
+    }
+    let scheme = scheme();
+    let field = scheme.get_field("s").expect("field s");
+    let texts: Vec<String> = sibs.iter().map(|n| format!("s contains {}", quote_bytes(n, ch.draw(3) as u8))).collect();
+    // compile order
+    let mut order: Vec<usize> = (0..sibs.len()).collect();
+    if ch.boolean() {
+        order.reverse();
+    }
+    let mut filters: Vec<Option<Filter>> = (0..sibs.len()).map(|_| None).collect();
+    for &i in &order {
+        filters[i] = Some(compile(&scheme, &texts[i], None, &sibs[i])?);
+    }
+    // haystacks: every sibling alone, embedded, and short strings free of the (one-byte) pattern
+    let mut hays: Vec<Vec<u8>> = Vec::new();
+    for n in &sibs {
+        hays.push(n.clone());
+        let mut h = vec![b'x'; 1 + ch.draw(20)];
+        h.extend_from_slice(n);
+        h.extend(std::iter::repeat_n(b'y', ch.draw(20)));
+        hays.push(h);
+    }
+    if len == 1 {
+        for l in 0..=20usize {
+            hays.push(vec![if base[0] == b'q' { b'r' } else { b'q' }; l]);
+        }
+    }
+    let active = simd_active();
+    let round = |filters: &Vec<Option<Filter>>, phase: &str, st: &mut Stats| -> CaseResult {
+        for h in &hays {
+            let mut ec: ExecutionContext<'_> = ExecutionContext::new(&scheme);
+            ec.set_field_value(field, LhsValue::Bytes(h.clone().into())).expect("bytes value for a Bytes field");
+            for (i, f) in filters.iter().enumerate() {
+                let Some(f) = f else { continue };
+                let want = naive_contains(h, &sibs[i]);
+                st.eval();
+                let got = catch(|| f.execute(&ec));
+                if !matches!(got, Ok(Ok(b)) if b == want) {
+                    let dir = if want { "false-negative" } else { "false-positive" };
+                    return Err(Fail::new(
+                        format!("contains-{dir}/siblings"),
+                        format!("`{}` ({phase}; {} sibling patterns compiled in this process, mode {}): engine {got:?}, naive scan {want}", texts[i], sibs.len(), mode_name(active)),
+                        json!({"filters_alive_together": texts, "compile_order": order, "failing_filter": texts[i], "haystack": show_bytes(h), "expected": want}),
+                    ));
+                }
+            }
+        }
+        Ok(())
+    };
+    round(&filters, "all alive", st)?;
+    // drop some, compile them again (others still alive), check again
+    for i in 0..filters.len() {
+        if ch.boolean() {
+            filters[i] = None;
+        }
+    }
+    round(&filters, "after dropping some", st)?;
+    for i in 0..filters.len() {
+        if filters[i].is_none() {
+            filters[i] = Some(compile(&scheme, &texts[i], None, &sibs[i])?);
+        }
+    }
+    round(&filters, "after recompiling the dropped ones", st)?;
+    st.class(&format!("siblings:len-{}", if len <= 16 { "1..16" } else if len <= 32 { "17..32" } else { "33+" }));
+    if len == 1 {
+        st.class("siblings:one-byte-pattern-on-short-haystacks");
+    }
+    st.nontrivial(&(active, &sibs, &order));
+    st.sample("siblings", || json!({"filters_alive_together": texts, "mode": mode_name(active)}));
+    Ok(())
+}
+
 fn base_fn(base: &str) -> Option<fn(&mut Choices<'_>, &mut Stats) -> CaseResult> {
     match base {
+        "siblings" => Some(siblings_case),
         "long" => Some(long_case),
         "grid" => Some(grid_case),
         "random" => Some(random_case),
@@ -871,6 +986,8 @@ pub fn subs() -> Vec<Sub> {
         Sub { name: "long-scalar", f: Box::new(|ch, st| in_mode(false, "long", ch, st)) },
         Sub { name: "production-simd", f: Box::new(|ch, st| in_mode(true, "production", ch, st)) },
         Sub { name: "production-scalar", f: Box::new(|ch, st| in_mode(false, "production", ch, st)) },
+        Sub { name: "siblings-simd", f: Box::new(|ch, st| in_mode(true, "siblings", ch, st)) },
+        Sub { name: "siblings-scalar", f: Box::new(|ch, st| in_mode(false, "siblings", ch, st)) },
     ]
 }
 
@@ -888,6 +1005,8 @@ fn workload(run: &Run, suffix: &str) {
     run.random(&format!("production-{suffix}"), n, 700, &production_case);
     let n = run.tier.pick(4_000, 60_000);
     run.random(&format!("long-{suffix}"), n, 2400, &long_case);
+    let n = run.tier.pick(20_000, 400_000);
+    run.random(&format!("siblings-{suffix}"), n, 200, &siblings_case);
 }
 
 /// Helper-process entry (`wfcheck --child c10 <args>`; `args` start after "c10"):
@@ -1052,6 +1171,7 @@ pub fn run(run: &Run) {
          (filler only; needle at offsets 0,1,middle,end-1,end for every extra length 0..=40 and around 48/64/96/128/256/300 - i.e. straddling every 16/32-byte block end; near-misses in the first/last/anchor/inner byte; every proper prefix/suffix of the needle; occurrence cut off by the end; near-miss then occurrence; overlapping copies; planted first+anchor-byte decoys; 2-3 symbol noise); \
          random = drawn needles (1-4 symbol alphabets or arbitrary bytes) with drawn anchor x 12 drawn haystacks of length 0..=300 each, plus the same needle under any(a[*] contains ..); \
          production = no override, the same filter compiled 8 times, all must agree; long = needles of 41..1000 bytes around internal size thresholds (63..65, 127..129, 254..258, 511..513) with a rare byte at a chosen depth (start, middle, >= 256, end), haystacks with the occurrence at the very start / end / inside, near-misses in the rare / first / last byte, cut-off copies; \
+         siblings = no override: a base pattern (1..128 bytes) and 2..6 patterns differing from it in one bit (first / middle / last byte), one appended or dropped byte or trailing NULs are compiled in a drawn order and kept alive together, every filter checked on every sibling's occurrences, then some dropped and compiled again; one-byte patterns (incl. 0x00, 0xff) on haystacks of 0..20 bytes without that byte; \
          non-trivial = haystack >= needle and (some position matches the needle's first and anchor bytes but not the whole needle | an occurrence crosses a 16-byte block boundary); distinct by (mode, needle, anchor, haystack)",
     );
     run.assume("the hook verif::set_contains_anchor only replaces the randomly drawn anchor position (one shadowing line) and verif::simd_contains_active reports the latched USE_AVX2");
